@@ -8,7 +8,7 @@ successful key conversion; the value error is located `at_path(path)`; result th
 Not decided: the size/content of the resulting map."""
 import re
 
-from vlib import mir
+from vlib import resalg, mir
 from . import common
 
 META = dict(
@@ -49,20 +49,18 @@ def run(ctx):
         f = ctx.fn("<%s as %s>::from_list" % (ty, FM))
         if not f:
             continue
-        # ---- literal item → error (closure 0), value located at_path
-        cl = ctx.closures_of(f)
-        c0 = [c for c in cl if ctx.find_calls(c, r"FromMeta>::from_meta$|FromMeta::from_meta$")]
-        ok = len(c0) == 1
-        ctx.ob("C14.shape.pairs-closure", f.key, "item → (path, value result)", ok, "%d closures converting the value" % len(c0))
-        if ok:
-            c = c0[0]
-            errs = ctx.find_calls(c, r"^darling_core::error::Error::unsupported_format$")
-            ctx.ob("C14.G.literal-item-is-error", c.key, "NestedMeta::Lit => Err", len(errs) == 1, "%d" % len(errs))
-            for blk, t in errs:
-                ctx.requires("C14.G.literal-item-is-error", c, blk, "unsupported_format", [r"discr\(a2\)=Lit$"])
-            inner = [x for x in ctx.closures_of(c)]
-            okl = any(ctx.ret_values(x) and all(re.match(r"^darling_core::error::Error::at_path\(a2, ", e) for _, e in ctx.ret_exprs(x)) for x in inner)
-            ctx.ob("C14.G.value-error-located-under-key", c.key, "map_err(|e| e.at_path(&path))", okl, "closures: %s" % [ctx.ret_values(x) for x in inner])
+        # ---- per item: a literal is an error; a named item yields (path, V::from_meta(item) located
+        # at the path) — in a closure, in a private helper, or inline in the loop
+        conv = ctx.find_calls_deep(f, r"FromMeta>::from_meta$|FromMeta::from_meta$", helpers=2)
+        ctx.ob("C14.shape.pairs-closure", f.key, "item → (path, value result)", len(conv) == 1, "%d conversions of the item's value" % len(conv))
+        lit_errs = ctx.find_calls_deep(f, r"^darling_core::error::Error::unsupported_format$", helpers=2)
+        ctx.ob("C14.G.literal-item-is-error", f.key, "NestedMeta::Lit => Err", len(lit_errs) == 1, "%d" % len(lit_errs))
+        for blk0, t0, owner in lit_errs:
+            blk1 = [b2 for b2, t2 in ctx.find_calls(owner, r"^darling_core::error::Error::unsupported_format$")][0]
+            ctx.requires("C14.G.literal-item-is-error", owner, blk1, "unsupported_format", [r"discr\([^=]*\)=Lit$"])
+        ats = ctx.find_calls_deep(f, r"^darling_core::error::Error::at_path$", helpers=2)
+        okl = len(ats) == 1 and (ctx.expr(ats[0][2], ats[0][1]["args"][0]) == "a2" or "from_meta(" in ctx.expr(ats[0][2], ats[0][1]["args"][0])) and "path" in ctx.expr(ats[0][2], ats[0][1]["args"][1]).lower()
+        ctx.ob("C14.G.value-error-located-under-key", f.key, "value error .at_path(&path)", okl, "at_path calls: %s" % [[ctx.expr(o, a)[:80] for a in t1["args"]] for _, t1, o in ats])
         # ---- main loop
         handles = ctx.find_calls(f, r"^darling_core::error::Accumulator::handle$")
         pushes = ctx.find_calls(f, r"^darling_core::error::Accumulator::push$")
@@ -70,9 +68,9 @@ def run(ctx):
         seen_ins = ctx.find_calls(f, r"HashSet::<.*>::insert$")
         contains = ctx.find_calls(f, r"HashSet::<.*>::contains")
         keyc = ctx.find_calls(f, r"KeyFromPath>::from_path$")
-        fw = ctx.find_calls(f, r"Accumulator::finish_with$")
-        ctx.ob("C14.shape.loop", f.key, "handle x2, push x3, insert, seen.insert, contains, from_path, finish_with",
-               (len(handles), len(pushes), len(inserts), len(seen_ins), len(contains), len(keyc), len(fw)) == (2, 3, 1, 1, 1, 1, 1),
+        fw = ctx.find_calls(f, r"Accumulator::finish_with$|Accumulator::finish$")
+        ctx.ob("C14.shape.loop", f.key, "one map.insert, one seen_keys.insert, one contains, one key conversion, one finish",
+               (len(inserts), len(seen_ins), len(contains), len(keyc), len(fw)) == (1, 1, 1, 1, 1) and len(handles) + len(pushes) >= 4,
                str((len(handles), len(pushes), len(inserts), len(seen_ins), len(contains), len(keyc), len(fw))))
         if not (keyc and inserts and seen_ins and contains and fw):
             continue
@@ -82,15 +80,17 @@ def run(ctx):
         KEYBAD = r"is_ok\(.*KeyFromPath>::from_path\(.*\)\)=False"
         SEEN = r"HashSet::<T, S(, A)?>::contains\(.*\)="
         # key failure: push the key error and still handle the value
-        bad_push = [(blk, t) for blk, t in pushes if all(ctx._sat(d, KEYBAD) for d in ctx.pc_strs(f, blk))]
+        bad_push = [(blk, t) for blk, t in pushes if ctx.pc_strs(f, blk) and all(ctx._sat(d, KEYBAD) for d in ctx.pc_strs(f, blk))]
         bad_handle = [(blk, t) for blk, t in handles if all(ctx._sat(d, KEYBAD) for d in ctx.pc_strs(f, blk)) and ctx.pc_strs(f, blk)]
-        ctx.ob("C14.G.bad-key-reported", f.key, "Err(e) => errors.push(e)", len(bad_push) == 1, "%d pushes under a failed key conversion" % len(bad_push))
-        ctx.ob("C14.G.bad-key-still-reports-value", f.key, "errors.handle(value) under a failed key", len(bad_handle) == 1, "%d" % len(bad_handle))
+        key_err = [(blk, t) for blk, t in bad_push if "from_path(" in ctx.expr(f, t["args"][1])]
+        val_rec = bad_handle + [(blk, t) for blk, t in bad_push if "from_path(" not in ctx.expr(f, t["args"][1])]
+        ctx.ob("C14.G.bad-key-reported", f.key, "Err(e) => errors.push(e)", len(key_err) == 1, "%d pushes of the key error under a failed key conversion" % len(key_err))
+        ctx.ob("C14.G.bad-key-still-reports-value", f.key, "the value's error is recorded under a failed key", len(val_rec) == 1, "%d" % len(val_rec))
         # map.insert requires value Ok and not seen
         blk, t = inserts[0]
-        ctx.requires("C14.G.insert-only-fresh-ok", f, blk, "map.insert", [KEYOK, SEEN + "False", r"is_ok\(\(.* as Some\)\.0\.1\)=True|discr\(\(.*\)\.1\)=Ok|is_ok\(.*\.1\)=True"])
+        ctx.requires("C14.G.insert-only-fresh-ok", f, blk, "map.insert", [KEYOK, SEEN + "False", r"is_ok\(\(.* as Some\)\.0\.1\)=True|discr\(\(.*\)\.1\)=Ok|is_ok\(.*\.1\)=True|is_ok\(.*from_meta\(.*\)=True"])
         ins_val = ctx.expr(f, t["args"][2])
-        ctx.ob("C14.G.insert-value-is-converted-value", f.key, "inserted value", bool(re.search(r"\.1 as Ok\)\.0$", ins_val)), "inserts %s" % ins_val[:140])
+        ctx.ob("C14.G.insert-value-is-converted-value", f.key, "inserted value", bool(re.search(r"as Ok\)\.0$", ins_val)) and "from_path(" not in ins_val, "inserts %s" % ins_val[:140])
         ins_key = ctx.expr(f, t["args"][1])
         ctx.ob("C14.G.insert-key-is-converted-key", f.key, "inserted key", "KeyFromPath>::from_path(" in ins_key and "clone(" in ins_key, "key %s" % ins_key[:160])
         # duplicate push requires seen
@@ -102,7 +102,8 @@ def run(ctx):
         ok = len(dpush) == 1 and "with_span(" in ctx.expr(f, dpush[0][1]["args"][1])
         ctx.ob("C14.G.duplicate-pushed-spanned", f.key, "errors.push(duplicate_field(..).with_span(path))", ok, "%s" % [ctx.expr(f, t2["args"][1])[:120] for _, t2 in dpush])
         # value error pushed
-        vpush = [(b2, t2) for b2, t2 in pushes if re.search(r"\.1 as Err\)\.0$", ctx.expr(f, t2["args"][1]))]
+        vpush = [(b2, t2) for b2, t2 in pushes if re.search(r"as Err\)\.0$", ctx.expr(f, t2["args"][1])) and "from_path(" not in ctx.expr(f, t2["args"][1])
+                 and all(ctx._sat(d, KEYOK) for d in ctx.pc_strs(f, b2))]
         ctx.ob("C14.G.bad-value-reported", f.key, "Err(e) => errors.push(e)", len(vpush) == 1, "%d" % len(vpush))
         for b2, t2 in vpush:
             ctx.requires("C14.G.bad-value-reported", f, b2, "push(value error)", [KEYOK])
@@ -118,6 +119,13 @@ def run(ctx):
         # result
         rs = ctx.ret_values(f)
         ok = len(rs) == 1 and rs[0].startswith("darling_core::error::Accumulator::finish_with(darling_core::error::Error::accumulator(), ")
+        if not ok:
+            # `errors.finish()?; Ok(map)`
+            FIN = "darling_core::error::Accumulator::finish(darling_core::error::Error::accumulator())"
+            cs_ = resalg.cases(ctx, f)
+            okr = [v for c, v in cs_ if "is_ok(%s)=True" % FIN in c]
+            err = [v for c, v in cs_ if "is_ok(%s)=False" % FIN in c]
+            ok = bool(okr) and all(v.startswith("core::result::Result::Ok{") for v in okr) and bool(err) and all(v == "core::result::Result::Err{(%s as Err).0}" % FIN for v in err)
         ctx.ob("C14.G.result-through-accumulator", f.key, "errors.finish_with(map)", ok, "returns %s" % [r[:140] for r in rs])
         seqs[(key, kind)] = norm_seq(ctx, f)
     ctx.floor("C14.maps", "map instantiations", len(seqs), 5)
@@ -134,7 +142,8 @@ def run(ctx):
     if f:
         oks = ctx.find_aggregates(f, r"^core::result::Result$", "Ok")
         for blk, i, st in oks:
-            ctx.requires("C14.G.ident-key-single-plain-segment", f, blk, "Ok(ident)", [r"^len\(a1\.segments\)=1$", r"is_some\(a1\.leading_colon\)=False", r"PathArguments::is_empty\(.*\)=True"])
+            ctx.requires("C14.G.ident-key-single-plain-segment", f, blk, "Ok(ident)", [r"^len\(a1\.segments\)=1$", r"is_some\(a1\.leading_colon\)=False", r"PathArguments::is_empty\(.*\)=True"],
+                         alt=[[r"is_some\(.*Iterator>::next\(.*a1\.segments.*\)\)=True", r"is_some\(.*Iterator>::next\(.*a1\.segments.*\)\)=False", r"is_some\(a1\.leading_colon\)=False", r"PathArguments::is_empty\(.*\)=True"]])
         ctx.ob("C14.G.ident-key-shape", f.key, "one Ok", len(oks) == 1, "%d" % len(oks))
     f = ctx.fn("<alloc::string::String as darling_core::from_meta::KeyFromPath>::from_path")
     if f:
